@@ -4,7 +4,10 @@
 (* and hypothetical defective writers used as vacuity probes; the check     *)
 (* (checks/c11.py) generates MC_Snapshot_real_*.tla at run time with the    *)
 (* sequence recorded from the real code by strace and runs the same         *)
-(* invariants on it.                                                         *)
+(* invariants on it.  OpsWriteFail*: a snapshot whose write fails after a    *)
+(* prefix (fault WriteFail); the writer's reaction is Snapshot!ErrorPath,     *)
+(* selected by the constant OnWriteError ("rename" = what doMaintenance       *)
+(* does, must be rejected; "remove" = repaired, must satisfy the invariants). *)
 EXTENDS Snapshot, Json
 
 O(op, a, b, n, g) == [op |-> op, a |-> a, b |-> b, n |-> n, g |-> g]
